@@ -115,9 +115,15 @@ Proofs/SuiteProofs.vos Proofs/SuiteProofs.vok Proofs/SuiteProofs.required_vos: P
 Proofs/UrlProofs.vo Proofs/UrlProofs.glob Proofs/UrlProofs.v.beautified Proofs/UrlProofs.required_vo: Proofs/UrlProofs.v Base/Prelude.vo Generated/Tables.vo Model/Errors.vo Model/Decoder.vo Model/Otp.vo Model/Utils.vo Model/Suite.vo Model/Url.vo Proofs/SuiteProofs.vo
 Proofs/UrlProofs.vio: Proofs/UrlProofs.v Base/Prelude.vio Generated/Tables.vio Model/Errors.vio Model/Decoder.vio Model/Otp.vio Model/Utils.vio Model/Suite.vio Model/Url.vio Proofs/SuiteProofs.vio
 Proofs/UrlProofs.vos Proofs/UrlProofs.vok Proofs/UrlProofs.required_vos: Proofs/UrlProofs.v Base/Prelude.vos Generated/Tables.vos Model/Errors.vos Model/Decoder.vos Model/Otp.vos Model/Utils.vos Model/Suite.vos Model/Url.vos Proofs/SuiteProofs.vos
+Proofs/TotalProofs.vo Proofs/TotalProofs.glob Proofs/TotalProofs.v.beautified Proofs/TotalProofs.required_vo: Proofs/TotalProofs.v Base/Prelude.vo Hash/Sha.vo Generated/Tables.vo Model/Errors.vo Model/Decoder.vo Model/Derive.vo Model/Otp.vo Model/Ocra.vo Model/Utils.vo Model/Random.vo Model/Suite.vo Model/Url.vo Proofs/DeriveProofs.vo Proofs/OtpProofs.vo Proofs/OcraProofs.vo Proofs/UtilsProofs.vo Proofs/SuiteProofs.vo
+Proofs/TotalProofs.vio: Proofs/TotalProofs.v Base/Prelude.vio Hash/Sha.vio Generated/Tables.vio Model/Errors.vio Model/Decoder.vio Model/Derive.vio Model/Otp.vio Model/Ocra.vio Model/Utils.vio Model/Random.vio Model/Suite.vio Model/Url.vio Proofs/DeriveProofs.vio Proofs/OtpProofs.vio Proofs/OcraProofs.vio Proofs/UtilsProofs.vio Proofs/SuiteProofs.vio
+Proofs/TotalProofs.vos Proofs/TotalProofs.vok Proofs/TotalProofs.required_vos: Proofs/TotalProofs.v Base/Prelude.vos Hash/Sha.vos Generated/Tables.vos Model/Errors.vos Model/Decoder.vos Model/Derive.vos Model/Otp.vos Model/Ocra.vos Model/Utils.vos Model/Random.vos Model/Suite.vos Model/Url.vos Proofs/DeriveProofs.vos Proofs/OtpProofs.vos Proofs/OcraProofs.vos Proofs/UtilsProofs.vos Proofs/SuiteProofs.vos
 Properties/C08.vo Properties/C08.glob Properties/C08.v.beautified Properties/C08.required_vo: Properties/C08.v Base/Prelude.vo Spec/Rfc4648.vo Model/Decoder.vo Model/Random.vo Proofs/Base32Proofs.vo Proofs/UtilsProofs.vo
 Properties/C08.vio: Properties/C08.v Base/Prelude.vio Spec/Rfc4648.vio Model/Decoder.vio Model/Random.vio Proofs/Base32Proofs.vio Proofs/UtilsProofs.vio
 Properties/C08.vos Properties/C08.vok Properties/C08.required_vos: Properties/C08.v Base/Prelude.vos Spec/Rfc4648.vos Model/Decoder.vos Model/Random.vos Proofs/Base32Proofs.vos Proofs/UtilsProofs.vos
+Properties/C10.vo Properties/C10.glob Properties/C10.v.beautified Properties/C10.required_vo: Properties/C10.v Base/Prelude.vo Hash/Sha.vo Model/Errors.vo Model/Decoder.vo Model/Derive.vo Model/Otp.vo Model/Ocra.vo Model/Utils.vo Model/Random.vo Model/Suite.vo Model/Url.vo Proofs/OtpProofs.vo Proofs/OcraProofs.vo Proofs/TotalProofs.vo
+Properties/C10.vio: Properties/C10.v Base/Prelude.vio Hash/Sha.vio Model/Errors.vio Model/Decoder.vio Model/Derive.vio Model/Otp.vio Model/Ocra.vio Model/Utils.vio Model/Random.vio Model/Suite.vio Model/Url.vio Proofs/OtpProofs.vio Proofs/OcraProofs.vio Proofs/TotalProofs.vio
+Properties/C10.vos Properties/C10.vok Properties/C10.required_vos: Properties/C10.v Base/Prelude.vos Hash/Sha.vos Model/Errors.vos Model/Decoder.vos Model/Derive.vos Model/Otp.vos Model/Ocra.vos Model/Utils.vos Model/Random.vos Model/Suite.vos Model/Url.vos Proofs/OtpProofs.vos Proofs/OcraProofs.vos Proofs/TotalProofs.vos
 Properties/C13.vo Properties/C13.glob Properties/C13.v.beautified Properties/C13.required_vo: Properties/C13.v Base/Prelude.vo Hash/Sha.vo Generated/Tables.vo Generated/ErrTexts.vo Model/Errors.vo Model/Decoder.vo Model/Derive.vo Model/Otp.vo Model/Ocra.vo Proofs/DeriveProofs.vo Proofs/OtpProofs.vo Proofs/OcraProofs.vo
 Properties/C13.vio: Properties/C13.v Base/Prelude.vio Hash/Sha.vio Generated/Tables.vio Generated/ErrTexts.vio Model/Errors.vio Model/Decoder.vio Model/Derive.vio Model/Otp.vio Model/Ocra.vio Proofs/DeriveProofs.vio Proofs/OtpProofs.vio Proofs/OcraProofs.vio
 Properties/C13.vos Properties/C13.vok Properties/C13.required_vos: Properties/C13.v Base/Prelude.vos Hash/Sha.vos Generated/Tables.vos Generated/ErrTexts.vos Model/Errors.vos Model/Decoder.vos Model/Derive.vos Model/Otp.vos Model/Ocra.vos Proofs/DeriveProofs.vos Proofs/OtpProofs.vos Proofs/OcraProofs.vos
